@@ -488,6 +488,17 @@ class CallMixin(object):
                     return Const(len([1 for g, _ in o.items if truth_const(g.v)]))
                 if o.kind == "map" and all(isinstance(p, Const) for p, _ in o.entries.values()):
                     return Const(len([1 for p, _ in o.entries.values() if truth_const(p.v)]))
+                if o.kind == "list" and not getattr(o, "one_shot", False) and not getattr(o, "havoc", False):
+                    # conditionally present elements: the length is the number of guards that hold
+                    n_ = P.const(0, "int")
+                    for g, _ in o.items:
+                        if isinstance(g, Const):
+                            if truth_const(g.v):
+                                n_ = T.p_add(n_, P.const(1, "int"))
+                        else:
+                            n_ = T.p_add(n_, P.atom(App("ind", (g,)), "int"))
+                    n_.len_guards = [g for g, _ in o.items]
+                    return n_
             return P.atom(App("len", (x,) if isinstance(x, Term) else ()), "int")
         if name in ("tuple", "list"):
             if not args:
